@@ -18,8 +18,21 @@ def pmap(fn, tasks, jobs=None):
     global _FN
     _FN = fn
     jobs = jobs or min(16, os.cpu_count() or 4)
-    if jobs <= 1 or len(tasks) <= 1:
+    if jobs <= 1:
         return [_call(t) for t in tasks]
     ctx = mp.get_context('fork')
     with ctx.Pool(jobs) as pool:
         return pool.map(_call, tasks, chunksize=1)
+
+
+def explore_parallel(task_fn, base_task, seed_fn, jobs=None, chunk=4):
+    """Two-stage exploration of one scenario: `seed_fn(base_task)` explores shortest-prefix-first in
+    this process until enough sub-trees are pending and returns (partial_result, frontier);
+    every frontier prefix is then explored to exhaustion by `task_fn(base_task + (prefixes,))` in
+    worker processes.  Returns [partial_result] + [('ok'|'error', result), ...]."""
+    first, frontier = seed_fn(base_task)
+    if not frontier:
+        return [('ok', first)]
+    groups = [frontier[i:i + chunk] for i in range(0, len(frontier), chunk)]
+    rest = pmap(task_fn, [tuple(base_task) + (g,) for g in groups], jobs)
+    return [('ok', first)] + rest
